@@ -459,6 +459,32 @@ func (m *c12Monitor) check(idx int64, sub string, c *c12Case, s string, endpoint
 			viol("C12:error-rendering:header", "ParseError.Error() does not start with its position header", map[string]any{"text": clip(text, 300)})
 		}
 	}
+	// errors must keep meaning what they meant: positions and rendering are
+	// computed lazily from the parser's state, so they are read again after an
+	// unrelated document has been parsed (another request, in a server)
+	if n := len(errs); n > 0 && n <= 200 && len(s) <= 200_000 {
+		first := make([]ketoapi.ParseError, 0, minInt(n, 8))
+		var texts []string
+		for _, e := range errs[:minInt(n, 8)] {
+			first = append(first, *e.ToAPI())
+			texts = append(texts, e.Error())
+		}
+		_, _ = schema.Parse("class VerifOther implements Namespace {\n  related: {\n    x: VerifOther[]\n  }\n}\n// " + strings.Repeat("padding ", 40) + "\n")
+		for i, e := range errs[:len(first)] {
+			var api *ketoapi.ParseError
+			var text string
+			if pt := guard(func() { api = e.ToAPI(); text = e.Error() }); pt != "" {
+				viol("C12:panic:render-after-later-parse:"+topFrames(pt, 3), "rendering an error after a later Parse panicked: "+firstLine(pt), nil)
+				break
+			}
+			if *api != first[i] || text != texts[i] {
+				viol("C12:error-changes-after-later-parse", "a ParseError reports different positions / text once another document has been parsed",
+					map[string]any{"before": first[i], "after": api})
+				break
+			}
+		}
+		run.count("errors_reread_after_later_parse", int64(len(first)))
+	}
 	// endpoints
 	if endpoints && len(errs) <= 4000 && (len(errs) == 0 || len(s) <= 20_000_000/len(errs)) {
 		if err := m.ep.init(run.t); err != nil {
